@@ -92,3 +92,29 @@ func tierN(tier string, quick, thorough int) int {
 	}
 	return quick
 }
+
+// listDiff - entries only in a / only in b.
+func listDiff(a, b []string) []string {
+	ma, mb := map[string]bool{}, map[string]bool{}
+	for _, x := range a {
+		ma[x] = true
+	}
+	for _, x := range b {
+		mb[x] = true
+	}
+	var out []string
+	for _, x := range a {
+		if !mb[x] {
+			out = append(out, "with: "+x)
+		}
+	}
+	for _, x := range b {
+		if !ma[x] {
+			out = append(out, "without: "+x)
+		}
+	}
+	if len(out) > 8 {
+		out = append(out[:8], "...")
+	}
+	return out
+}
